@@ -678,6 +678,350 @@ def generate():
     return guards, ties, report
 
 
+# ---------------------------------------------------------------------------
+# Function sites: WHOLE function bodies translated, statement by statement, into a Gallina term of type `res T`
+# (f_<id> in Gen/SrcFuns.v) and proved equal to the model's function (Gen/FunTie.v).  Supported statements:
+# docstrings, `return e`, `raise X(...)`, assignments to local names, `assert c[, msg]`, `if/elif/else`,
+# and the search loop `for x in xs: if c: break` + `else: <returns or raises>`.  Expressions are those of `tr`
+# plus the operations that can raise, bound in evaluation order in the error monad: `a / b` (pdiv),
+# `math.log` (plog), `math.exp` (pexp), `xs[0]` (phead).  Anything else is "untranslated" (fail-closed).
+RECORDS = {
+    "epoch": {"start_time": ("(e_start %s)", N), "end_time": ("(e_end %s)", N), "start_size": ("(e_ssize %s)", N),
+              "end_size": ("(e_esize %s)", N), "size_function": ("(e_sf %s)", "str"), "selfing_rate": ("(e_self %s)", N),
+              "cloning_rate": ("(e_clone %s)", N), "time_span": ("(nsub (e_start %s) (e_end %s))", N)},
+    "deme": {"start_time": ("(d_start %s)", N), "epochs": ("(d_epochs %s)", "list:epoch"), "name": ("(d_name %s)", "str")},
+    "mig": {"source": ("(m_src %s)", "str"), "dest": ("(m_dst %s)", "str"), "start_time": ("(m_start %s)", N),
+            "end_time": ("(m_end %s)", N), "rate": ("(m_rate %s)", N)},
+}
+ERRS = {"ValueError": "ValueErr", "NotImplementedError": "OtherErr", "KeyError": "KeyErr", "TypeError": "TypeErr",
+        "IndexError": "IndexErr", "AssertionError": "AssertErr", "ZeroDivisionError": "ZeroDivErr", "OverflowError": "OverflowErr"}
+
+
+def bind_record(env, pyname, coqname, kind):
+    env = dict(env)
+    for attr, (pat, ty) in RECORDS[kind].items():
+        env[pyname + "." + attr] = (pat.replace("%s", coqname), ty)
+    env[pyname] = (coqname, "rec:" + kind)
+    return env
+
+
+class _Lift(ast.NodeTransformer):
+    """replaces, in evaluation order, every sub-expression that can raise by a fresh name bound in the error monad"""
+
+    def __init__(self, env, counter):
+        self.env, self.binds, self.counter, self.guarded = env, [], counter, 0
+
+    def fresh(self, hint):
+        self.counter[0] += 1
+        return "%s_%d" % (hint, self.counter[0])
+
+    def _emit(self, hint, term, ty):
+        if self.guarded:
+            raise Untranslatable("an operation that can raise under and/or/conditional expression")
+        v = self.fresh(hint)
+        self.binds.append((v, term))
+        if ty.startswith("rec:"):
+            self.env = bind_record(self.env, v, v, ty[4:])
+        else:
+            self.env = dict(self.env)
+            self.env[v] = (v, ty)
+        return ast.copy_location(ast.Name(id=v, ctx=ast.Load()), ast.Constant(0))
+
+    def visit_BoolOp(self, node):
+        # operands after the first are evaluated conditionally
+        first = self.visit(node.values[0])
+        self.guarded += 1
+        rest = [self.visit(v) for v in node.values[1:]]
+        self.guarded -= 1
+        return ast.BoolOp(op=node.op, values=[first] + rest)
+
+    def visit_IfExp(self, node):
+        test = self.visit(node.test)
+        self.guarded += 1
+        body, orelse = self.visit(node.body), self.visit(node.orelse)
+        self.guarded -= 1
+        return ast.IfExp(test=test, body=body, orelse=orelse)
+
+    def visit_Lambda(self, node):
+        raise Untranslatable("lambda")
+
+    def visit_BinOp(self, node):
+        node = self.generic_visit(node)
+        if isinstance(node.op, ast.Div):
+            pa, ta = tr(node.left, self.env)
+            pb, tb = tr(node.right, self.env)
+            if ta != "num" or tb != "num":
+                raise Untranslatable("division of non-numbers")
+            return self._emit("q", "pdiv %s %s" % (pa, pb), "num")
+        return node
+
+    def visit_Call(self, node):
+        node = self.generic_visit(node)
+        fname = ast.unparse(node.func)
+        if fname in ("math.log", "math.exp") and len(node.args) == 1 and not node.keywords:
+            pa, ta = tr(node.args[0], self.env)
+            if ta != "num":
+                raise Untranslatable(fname + " of a non-number")
+            return self._emit("l" if fname == "math.log" else "x", ("plog %s" if fname == "math.log" else "pexp %s") % pa, "num")
+        return node
+
+    def visit_Subscript(self, node):
+        if ast.unparse(node) in self.env:
+            return node
+        node = self.generic_visit(node)
+        if isinstance(node.slice, ast.Constant) and node.slice.value == 0:
+            pa, ta = tr(node.value, self.env)
+            if ta.startswith("list:"):
+                return self._emit("h", "phead %s" % pa, "rec:" + ta[5:])
+        raise Untranslatable("subscript " + ast.unparse(node))
+
+    def visit_Attribute(self, node):
+        if ast.unparse(node) in self.env:
+            return node
+        node = self.generic_visit(node)
+        return node
+
+
+def lift(node, env, counter):
+    """-> (binds [(var, monadic term)], pure coq term, type, env extended with the bound names)"""
+    if isinstance(node, ast.Compare) and len(node.ops) == 2 and any(isinstance(o, (ast.Is, ast.IsNot)) for o in node.ops):
+        raise Untranslatable("chained identity test")
+    if (isinstance(node, ast.Compare) and len(node.ops) == 1 and isinstance(node.ops[0], ast.Is)
+            and ast.unparse(node.left).endswith(".__class__") and ast.unparse(node.comparators[0]).endswith(".__class__")):
+        return [], "true", "bool", env          # both arguments have the model's (static) type
+    lf = _Lift(env, counter)
+    new = lf.visit(node)
+    term, ty = tr(new, lf.env)
+    return lf.binds, term, ty, lf.env
+
+
+def wrap(binds, body):
+    for v, t in reversed(binds):
+        body = "(%s <- %s ;; %s)" % (v, t, body)
+    return body
+
+
+def tr_block(stmts, env, ctx):
+    """statements -> Gallina term of type res <ctx['ret']>; falling off the end returns None (unit)"""
+    if not stmts:
+        ctx["types"].add("unit")
+        return "Ok tt"
+    s, rest = stmts[0], stmts[1:]
+    if isinstance(s, ast.Expr) and isinstance(s.value, ast.Constant) and isinstance(s.value.value, str):
+        return tr_block(rest, env, ctx)
+    if isinstance(s, ast.Pass):
+        return tr_block(rest, env, ctx)
+    if isinstance(s, ast.Return):
+        if s.value is None:
+            ctx["types"].add("unit")
+            return "Ok tt"
+        binds, term, ty, _ = lift(s.value, env, ctx["counter"])
+        ctx["types"].add(ty)
+        return wrap(binds, "Ok %s" % term)
+    if isinstance(s, ast.Raise):
+        exc = s.exc.func if isinstance(s.exc, ast.Call) else s.exc
+        name = ast.unparse(exc) if exc is not None else "?"
+        if name not in ERRS:
+            raise Untranslatable("raise " + name)
+        return "Err %s" % ERRS[name]
+    if isinstance(s, ast.Assign) and len(s.targets) == 1 and isinstance(s.targets[0], ast.Name):
+        binds, term, ty, env2 = lift(s.value, env, ctx["counter"])
+        env2 = dict(env2)
+        if ty.startswith("rec:"):
+            env2 = bind_record(env2, s.targets[0].id, term, ty[4:])
+        else:
+            env2[s.targets[0].id] = (term, ty)
+        return wrap(binds, tr_block(rest, env2, ctx))
+    if isinstance(s, ast.Assert):
+        binds, term, ty, _ = lift(s.test, env, ctx["counter"])
+        if binds or ty != "bool":
+            raise Untranslatable("assert on a non-boolean or raising expression")
+        return "(if %s then %s else Err AssertErr)" % (term, tr_block(rest, env, ctx))
+    if isinstance(s, ast.If):
+        binds, term, ty, _ = lift(s.test, env, ctx["counter"])
+        if binds or ty != "bool":
+            raise Untranslatable("if on a non-boolean or raising expression")
+        return "(if %s then %s else %s)" % (term, tr_block(list(s.body) + rest, env, ctx), tr_block(list(s.orelse) + rest, env, ctx))
+    if (isinstance(s, ast.For) and isinstance(s.target, ast.Name) and len(s.body) == 1 and isinstance(s.body[0], ast.If)
+            and len(s.body[0].body) == 1 and isinstance(s.body[0].body[0], ast.Break) and not s.body[0].orelse
+            and s.orelse and isinstance(s.orelse[-1], (ast.Return, ast.Raise))):
+        binds, term, ty, env1 = lift(s.iter, env, ctx["counter"])
+        if not ty.startswith("list:"):
+            raise Untranslatable("loop over " + ty)
+        v = s.target.id
+        env2 = bind_record(env1, v, v, ty[5:])
+        cb, cterm, cty, _ = lift(s.body[0].test, env2, ctx["counter"])
+        if cb or cty != "bool":
+            raise Untranslatable("loop test")
+        return wrap(binds, "match find (fun %s => %s) %s with None => %s | Some %s => %s end"
+                    % (v, cterm, term, tr_block(list(s.orelse), env1, ctx), v, tr_block(rest, env2, ctx)))
+    raise Untranslatable("statement " + type(s).__name__ + ": " + ast.unparse(s)[:60])
+
+
+TOL = {"rel_tol": ("rel", N), "abs_tol": ("abs", N)}
+FUN_SITES = [
+    # (id, file, function, bindings of the parameters, binders, Coq result type, statement tying f_<id> to the model,
+    #  definitions of the model to unfold, properties)
+    ("Deme_size_at", "demes/demes.py", "Deme.size_at", [("self", "rec:deme"), ("time", N)], "(self : deme) (time : num)", "num",
+     "forall self time, f_Deme_size_at self time = size_at self time", "size_at size_in_epoch epoch_owns", ["C13"]),
+    ("Epoch_time_span", "demes/demes.py", "Epoch.time_span", [("self", "rec:epoch")], "(self : epoch)", "num",
+     "forall self, f_Epoch_time_span self = Ok (m_time_span (e_start self) (e_end self))", "m_time_span", ["C13", "C07"]),
+    ("to_ms_get_growth_rate", "demes/ms.py", "to_ms.get_growth_rate", [("epoch", "rec:epoch"), ("N0", N)], "(N0 : num) (epoch : epoch)",
+     "num", "forall N0 epoch, f_to_ms_get_growth_rate N0 epoch = growth_rate (nmul n4 N0) epoch", "growth_rate nneg raise_if", ["C07"]),
+    ("Epoch_assert_close", "demes/demes.py", "Epoch.assert_close",
+     [("self", "rec:epoch"), ("other", "rec:epoch"), ("rel_tol", N), ("abs_tol", N)],
+     "(self other : epoch) (rel_tol abs_tol : num)", "unit",
+     "forall self other rel_tol abs_tol, is_ok (f_Epoch_assert_close self other rel_tol abs_tol) = close_epoch rel_tol abs_tol self other",
+     "close_epoch is_ok", ["C10"]),
+    ("AsymmetricMigration_assert_close", "demes/demes.py", "AsymmetricMigration.assert_close",
+     [("self", "rec:mig"), ("other", "rec:mig"), ("rel_tol", N), ("abs_tol", N)],
+     "(self other : mig) (rel_tol abs_tol : num)", "unit",
+     "forall self other rel_tol abs_tol, is_ok (f_AsymmetricMigration_assert_close self other rel_tol abs_tol) = "
+     "close_mig rel_tol abs_tol self other", "close_mig is_ok", ["C10"]),
+    ("v_positive", "demes/demes.py", "positive", [("self", "skip"), ("attribute", "skip"), ("value", N)], "(value : num)", "unit",
+     "forall value, f_v_positive value = positive value", "positive raise_if", ["C01", "C03"]),
+    ("v_non_negative", "demes/demes.py", "non_negative", [("self", "skip"), ("attribute", "skip"), ("value", N)], "(value : num)", "unit",
+     "forall value, f_v_non_negative value = non_negative value", "non_negative raise_if", ["C01", "C03"]),
+    ("v_finite", "demes/demes.py", "finite", [("self", "skip"), ("attribute", "skip"), ("value", N)], "(value : num)", "unit",
+     "forall value, f_v_finite value = finite value", "finite raise_if", ["C01", "C03"]),
+    ("v_unit_interval", "demes/demes.py", "unit_interval", [("self", "skip"), ("attribute", "skip"), ("value", N)], "(value : num)", "unit",
+     "forall value, f_v_unit_interval value = unit_interval value", "unit_interval raise_if", ["C01", "C03"]),
+    ("v_unit_interval_lo", "demes/demes.py", "unit_interval_exclusive_lo", [("self", "skip"), ("attribute", "skip"), ("value", N)],
+     "(value : num)", "unit", "forall value, f_v_unit_interval_lo value = unit_interval_lo value", "unit_interval_lo raise_if",
+     ["C01", "C03"]),
+    ("Epoch_post_init", "demes/demes.py", "Epoch.__attrs_post_init__", [("self", "rec:epoch")], "(self : epoch)", "unit",
+     "forall self, f_Epoch_post_init self = epoch_post_init self", "epoch_post_init raise_if", ["C01", "C03"]),
+    ("AsymmetricMigration_post_init", "demes/demes.py", "AsymmetricMigration.__attrs_post_init__", [("self", "rec:mig")], "(self : mig)",
+     "unit", "forall self, f_AsymmetricMigration_post_init self = mig_post_init self", "mig_post_init raise_if", ["C01", "C03"]),
+]
+
+
+def generate_funs():
+    cache, defs, ties, report = {}, [], [], []
+    for sid, path, qual, params, binders, rty, stmt, unfold, props in FUN_SITES:
+        if path not in cache:
+            cache[path] = load(path)
+        fn = cache[path].get(qual)
+        status, term = "ok", None
+        if fn is None:
+            status = "function %s not found" % qual
+        else:
+            env = {}
+            for name, ty in params:
+                if ty == "skip":        # a parameter the body may not use (attrs passes self and the attribute to validators)
+                    env["__skip__" + name] = ("tt", "other")
+                    continue
+                if ty.startswith("rec:"):
+                    env = bind_record(env, name, name, ty[4:])
+                else:
+                    env[name] = (name, ty)
+            # the declared parameters must be the function's own (closure variables such as N0 excepted)
+            own = [a.arg for a in fn.args.args + fn.args.kwonlyargs]
+            missing = [a for a in own if a not in env and "__skip__" + a not in env]
+            if missing:
+                status = "untranslatable: parameter(s) %s have no model counterpart" % missing
+            else:
+                ctx = dict(types=set(), counter=[0])
+                try:
+                    term = tr_block(list(fn.body), env, ctx)
+                    tys = set("num" if t == "num" else t for t in ctx["types"])
+                    if tys != {rty}:
+                        status = "untranslatable: returns %s, the model returns %s" % (sorted(tys), rty)
+                except Untranslatable as e:
+                    status = "untranslatable: %s" % e
+        report.append(dict(site="f_" + sid, file=path, function=qual, index=None, status=status, props=props,
+                           source=(term or "")[:600]))
+        if status != "ok":
+            continue
+        defs.append("  (* %s  %s: the whole function body *)\n  Definition f_%s %s : res %s :=\n    %s.\n" % (path, qual, sid, binders, rty, term))
+        ties.append(("f_" + sid, stmt, unfold))
+    return defs, ties, report
+
+
+FUN_HEADER = """(* GENERATED by xlate/pyxlate.py from the current source of /repo on every run. Do not edit.
+   Whole function bodies of the implementation, translated statement by statement. *)
+From Coq Require Import Bool List String Arith.
+From Demes Require Import Base.Num Base.Py Model.MDM Model.Resolve Model.SizeAt Model.ToMs Model.Close Proofs.ArithSites Proofs.FunSites.
+Import ListNotations.
+Local Open Scope string_scope.
+Local Open Scope list_scope.
+"""
+FUNTIE_HEADER = FUN_HEADER + """From Demes Require Import Gen.SrcFuns.
+
+(* [ftie]: the translated body equals the model's function: by conversion when both are spelt alike, else by case
+   analysis on the atomic tests, the search result, the list head and the partial arithmetic operations. *)
+Ltac ftie_step :=
+  match goal with
+  | |- context [phead ?l] => is_var l; destruct l
+  | |- context [phead (?f ?l)] => let x := fresh in destruct (f l) eqn:x
+  | |- context [find ?f ?l] => let x := fresh in destruct (find f l) eqn:x
+  | |- context [nisinf ?a] => let x := fresh in destruct (nisinf a) eqn:x
+  | |- context [nlt ?a ?b] => let x := fresh in destruct (nlt a b) eqn:x
+  | |- context [nle ?a ?b] => let x := fresh in destruct (nle a b) eqn:x
+  | |- context [neqb ?a ?b] => let x := fresh in destruct (neqb a b) eqn:x
+  | |- context [isclose0 ?a ?b] => let x := fresh in destruct (isclose0 a b) eqn:x
+  | |- context [isclose ?a ?b ?c ?d] => let x := fresh in destruct (isclose a b c d) eqn:x
+  | |- context [String.eqb ?a ?b] => let x := fresh in destruct (String.eqb a b) eqn:x
+  | |- context [pdiv ?a ?b] => let x := fresh in destruct (pdiv a b) eqn:x
+  | |- context [plog ?a] => let x := fresh in destruct (plog a) eqn:x
+  | |- context [pexp ?a] => let x := fresh in destruct (pexp a) eqn:x
+  end; cbn [bind phead is_ok negb andb orb].
+(* reflexivity is tried before every case split, so the number of cases is that of the paths through the body *)
+Ltac ftie_go := first [ reflexivity | ftie_step; ftie_go ].
+Ltac ftie := intros; first [ reflexivity
+                            | unfold ngt, nge, nneq, mem; cbn [existsb bind phead is_ok]; timeout 120 ftie_go ].
+"""
+
+
+def funs_gen(outdir, coqc, report, byid):
+    fdefs, fties, freport = generate_funs()
+    report += freport
+    for r in freport:
+        byid[r["site"]] = r
+    with open(os.path.join(outdir, "SrcFuns.v"), "w") as f:
+        f.write(FUN_HEADER + "\nSection SrcFuns.\n  Context {N : NumOps}.\n\n" + "\n".join(fdefs) + "End SrcFuns.\n")
+    r = coqc("SrcFuns.v")
+    if r.returncode != 0:
+        # find the definitions that do not type-check one by one, so that one bad function does not hide the others
+        good = []
+        for d, (sid, stmt, unfold) in zip(fdefs, fties):
+            with open(os.path.join(outdir, "SrcFuns.v"), "w") as f:
+                f.write(FUN_HEADER + "\nSection SrcFuns.\n  Context {N : NumOps}.\n\n" + "\n".join(good + [d]) + "End SrcFuns.\n")
+            r1 = coqc("SrcFuns.v")
+            if r1.returncode == 0:
+                good.append(d)
+            else:
+                byid[sid]["status"] = "tie broken: the translated body does not type-check against the model's types: " + \
+                    (r1.stdout + r1.stderr).strip()[-200:]
+        with open(os.path.join(outdir, "SrcFuns.v"), "w") as f:
+            f.write(FUN_HEADER + "\nSection SrcFuns.\n  Context {N : NumOps}.\n\n" + "\n".join(good) + "End SrcFuns.\n")
+        coqc("SrcFuns.v")
+        fties = [t for t in fties if byid[t[0]]["status"] == "ok"]
+    with open(os.path.join(outdir, "FunProbe.v"), "w") as f:
+        f.write(FUNTIE_HEADER + "\nSection FunProbe.\n  Context {N : NumOps}.\n")
+        for sid, stmt, unfold in fties:
+            f.write('  Goal %s.\n  Proof. tryif solve [unfold %s, %s; ftie] then idtac "TIE-OK %s" else idtac "TIE-BROKEN %s". Abort.\n'
+                    % (stmt, sid, ", ".join(unfold.split()), sid, sid))
+        f.write("End FunProbe.\n")
+    r = coqc("FunProbe.v")
+    out = (r.stdout + r.stderr).split()
+    okset = set(out[i + 1] for i, w in enumerate(out[:-1]) if w == "TIE-OK")
+    for sid, stmt, unfold in fties:
+        if sid not in okset:
+            byid[sid]["status"] = "tie broken: the function body translated from the source is not the model's function"
+    with open(os.path.join(outdir, "FunTie.v"), "w") as f:
+        f.write(FUNTIE_HEADER + "\nSection FunTie.\n  Context {N : NumOps}.\n\n")
+        for sid, stmt, unfold in fties:
+            if byid[sid]["status"] == "ok":
+                f.write("  Lemma tie_%s : %s.\n  Proof. unfold %s, %s; ftie. Qed.\n\n" % (sid, stmt, sid, ", ".join(unfold.split())))
+        f.write("End FunTie.\n")
+    r = coqc("FunTie.v")
+    if r.returncode != 0:
+        for x in freport:
+            if x["status"] == "ok":
+                x["status"] = "tie lemmas do not check: " + (r.stdout + r.stderr)[-300:]
+
+
 HEADER = """(* GENERATED by xlate/pyxlate.py from the current source of /repo on every run. Do not edit. *)
 From Coq Require Import Bool List String Arith.
 From Demes Require Import Base.Num Base.Py Model.MDM Model.Resolve Proofs.ArithSites.
@@ -724,15 +1068,42 @@ def cmd_gen(outdir, coqdir="/verif/coq"):
 
     def coqlist(l):
         return "[" + "; ".join('"%s"' % x.replace('"', "'") for x in l) + "]"
-    with open(os.path.join(outdir, "SrcGuards.v"), "w") as f:
-        f.write(HEADER + "\n" + "\n".join("Definition s_%s : list string := %s." % (sid, coqlist(got)) for sid, got, _ in sitems)
-                + "\n\nSection SrcGuards.\n  Context {N : NumOps}.\n\n" + "\n".join(guards) + "End SrcGuards.\n")
+    def write_guards():
+        with open(os.path.join(outdir, "SrcGuards.v"), "w") as f:
+            f.write(HEADER + "\n" + "\n".join("Definition s_%s : list string := %s." % (sid, coqlist(got)) for sid, got, _ in sitems)
+                    + "\n\nSection SrcGuards.\n  Context {N : NumOps}.\n\n" + "\n".join(guards) + "End SrcGuards.\n")
+    write_guards()
     byid = {r["site"]: r for r in report}
 
     def coqc(name):
         return subprocess.run("timeout 300 coqc -Q %s Demes -Q %s Demes.Gen %s" % (coqdir, outdir, os.path.join(outdir, name)),
                               shell=True, capture_output=True, text=True)
     r = coqc("SrcGuards.v")
+    # a translated expression that does not type-check against the model's binders (e.g. it mentions a name the site
+    # does not bind any more) breaks THAT site only: drop it and compile the rest
+    for _ in range(25):
+        if r.returncode == 0:
+            break
+        m = re.search(r'line (\d+), characters', r.stdout + r.stderr)
+        if not m:
+            break
+        upto = open(os.path.join(outdir, "SrcGuards.v")).read().split("\n")[:int(m.group(1))]
+        culprit = None
+        for line in reversed(upto):
+            mm = re.match(r"\s*Definition ([ag])_(\w+) ", line)
+            if mm:
+                culprit = mm.group(2) if mm.group(1) == "g" else "a_" + mm.group(2)
+                break
+        if culprit is None or culprit not in byid:
+            break
+        byid[culprit]["status"] = "tie broken: the expression translated from the source does not type-check at this site: " + \
+            (r.stdout + r.stderr).strip().split("\n")[-1][:160]
+        dname = ("g_" + culprit) if not culprit.startswith("a_") else culprit
+        guards = [g for g in guards if ("Definition %s " % dname) not in g]
+        ties = [t for t in ties if t[0] != culprit]
+        aties = [t for t in aties if t[0] != culprit]
+        write_guards()
+        r = coqc("SrcGuards.v")
     if r.returncode != 0:
         for x in report:
             if x["status"] == "ok":
@@ -771,6 +1142,23 @@ def cmd_gen(outdir, coqdir="/verif/coq"):
             for x in report:
                 if x["status"] == "ok":
                     x["status"] = "tie lemmas do not check: " + (r.stdout + r.stderr)[-300:]
+    try:
+        funs_gen(outdir, coqc, report, byid)
+        # a function whose WHOLE body is translated and proved equal to the model's function needs none of the finer
+        # sites inside it (single guards, arithmetic expressions, the list of its decisions as written): when those no
+        # longer match because the function was respelt, the whole-function tie is what decides
+        whole = {(x["file"], x["function"]): x["site"] for x in report if x["site"].startswith("f_") and x["status"] == "ok"}
+        for x in report:
+            k = (x["file"], x["function"])
+            if k in whole and x["status"] != "ok" and not x["site"].startswith("f_"):
+                x["subsumed"] = x["status"]
+                x["status"] = "ok"
+                x["note"] = "site no longer matches as written; the whole-function tie %s holds" % whole[k]
+    except Exception as e:          # fail closed: every function site is then a broken tie
+        for sid, path, qual, params, binders, rty, stmt, unfold, props in FUN_SITES:
+            if not any(x["site"] == "f_" + sid for x in report):
+                report.append(dict(site="f_" + sid, file=path, function=qual, index=None, source=None, props=props,
+                                   status="tie broken: the function translator failed: %r" % (e,)))
     json.dump(report, open(os.path.join(outdir, "xlate_report.json"), "w"), indent=1)
     return report
 
